@@ -181,6 +181,9 @@ class StoreLib(LibBase):
             for nm, kind in self.schema(cls).items():
                 st.f[nm] = V.mk_value("s0." + nm, kind)
         st.ghost["cls"] = cls
+        # P, R and F are general-purpose stores (their items are arbitrary objects, possibly falsy); the other four
+        # hold flow items / (item, delay) pairs, which are always truthy
+        V.GENERIC_ITEMS[0] = cls in ("P", "R", "F")
         return st
 
     def len_terms(self, st):
@@ -1395,6 +1398,9 @@ class StoreLib(LibBase):
                for nm in (QP, RP, QG, RG, RE, ITEMS) + ((RD, RI) if p["ready"] else ())]
             + ([Clause("mode-recorded", lambda c: c.new.f["mode"].t == c.args["mode"].t, ("C06",))] if p["lifo"] else [])
             + ([Clause("slot-delay-recorded", lambda c: c.new.f["delay"].t == c.args["delay"].t, ("C12",))] if cls == "S" else [])
+            + ([Clause("waiting-delay-and-transit-delay-recorded", lambda c: z3.And(
+                c.new.f["delay"].t == c.args["delay"].t, c.new.f["transit_delay"].t == c.args["transit_delay"].t), ("C14",))]
+               if p["fleet"] else [])
             + ([Clause("speed-and-accumulation-flag-recorded", lambda c: z3.And(
                 c.new.f["speed"].t == c.args["speed"].t,
                 c.new.f["accumulation_mode_indicator"].t == c.args["accumulation_mode_indicator"].t), ("C12",))]
@@ -1520,6 +1526,9 @@ class StoreLib(LibBase):
         cls = ex.ctx.cls
         con = self.contracts[cls].get(name)
         if con is None:
+            r = self.inline_accessor(ex, name, args, kw, st, lineno)
+            if r is not None:
+                return r
             raise Unsupported("call to self.%s() which has no contract (line %d)" % (name, lineno))
         amap = {}
         for k, (pn, kind, default) in enumerate(con.params):
